@@ -51,6 +51,7 @@ func genC07Case(t *rapid.T) C07Case {
 	}
 	s.SP = rapid.SampledFrom(candidates).Draw(t, "sp")
 	s.Prelude = genPrelude(t, spec, s.Host)
+	s.Noise = rapid.IntRange(0, 2).Draw(t, "noise") == 0
 	sp := spec.SPs[s.SP]
 	s.Style = genXMLStyle(t)
 	c.CData = rapid.IntRange(0, 4).Draw(t, "cdata") == 0
@@ -173,7 +174,14 @@ func c07Render(c C07Case, now time.Time) (obs.HTTPReq, error) {
 
 // c07Accepted runs the case and reports whether it was accepted, with a reason if not.
 func c07Accepted(c C07Case) (bool, string, obs.HTTPReq) {
-	w := mustBuild(c.SSO.Spec)
+	wspec := c.SSO.Spec
+	if c.SSO.Noise {
+		wspec = withNoise(wspec)
+	}
+	w := mustBuild(wspec)
+	if c.SSO.Noise {
+		runNoise(w, wspec)
+	}
 	runPrelude(w, c.SSO.Spec, c.SSO.Prelude)
 	now := time.Now()
 	hr, err := c07Render(c, now)
